@@ -3,7 +3,6 @@ import MythVerif.Proofs.WsQueueTsoTac
 namespace MythVerif.WsqTso
 open MythVerif.Wsq
 
-set_option maxHeartbeats 4000000 in
 theorem t_wk4 (s s' : St) (p : Pid) (r) : Inv s → s.tpc p = .wk4 r → stepT s p = some s' → Inv s' := by
   intro h heq hs
   have hb := h.tbufE p (by simp [heq, mayBuf])
@@ -11,7 +10,6 @@ theorem t_wk4 (s s' : St) (p : Pid) (r) : Inv s → s.tpc p = .wk4 r → stepT s
   simp at hs; subst hs
   tso_fastT h p [wk4]
 
-set_option maxHeartbeats 4000000 in
 theorem t_wk4u (s s' : St) (p : Pid) (r) : Inv s → s.tpc p = .wk4u r → stepT s p = some s' → Inv s' := by
   intro h heq hs
   have hcfg := h.cfg
@@ -23,7 +21,6 @@ theorem t_wk4u (s s' : St) (p : Pid) (r) : Inv s → s.tpc p = .wk4u r → stepT
     tso_fastT h p [wk4u]
   · simp at hs
 
-set_option maxHeartbeats 4000000 in
 theorem t_wk5 (s s' : St) (p : Pid) (b) : Inv s → s.tpc p = .wk5 b → stepT s p = some s' → Inv s' := by
   intro h heq hs
   have hb := h.tbufE p (by simp [heq, mayBuf])
@@ -31,7 +28,6 @@ theorem t_wk5 (s s' : St) (p : Pid) (b) : Inv s → s.tpc p = .wk5 b → stepT s
   simp at hs; subst hs
   tso_fastT h p [wk5]
 
-set_option maxHeartbeats 4000000 in
 theorem t_wk6 (s s' : St) (p : Pid) : Inv s → s.tpc p = .wk6 → stepT s p = some s' → Inv s' := by
   intro h heq hs
   have hcfg := h.cfg
